@@ -14,7 +14,7 @@ TTAF = 'universe.SubqueryTranslator.TranslateTableAttachedToFile'
 PREDSQL = 'universe.LogicaProgram.PredicateSql'
 
 
-def export_scenarios(repo, engine, overwrite, copy_to_file):
+def export_scenarios(repo, engine, overwrite, copy_to_file, has_rules=True):
   """All paths of TranslateTableAttachedToFile for a not yet defined, defined
   predicate: returns [(exported skeleton text or None, effects)]."""
   fi = repo.func(TTAF)
@@ -51,14 +51,40 @@ def export_scenarios(repo, engine, overwrite, copy_to_file):
         st.effects.append(('emit', interp.value(node.args[0], st)))
       return Const(None)
     r = strshape.call_hook(node, st, interp)
-    return r
+    if r is not NotImplemented:
+      return r
+    # helper of the same module (e.g. an extracted method): interpret it
+    for tg in repo.resolve(fi, node):
+      if tg.startswith('universe.') and tg != fi.fq:
+        try:
+          callee = repo.func(tg)
+        except AnalysisError:
+          continue
+        params = callee.params
+        if callee.cls is not None and params and params[0] in ('self', 'cls'):
+          params = params[1:]
+        env = {'self': Sym('self')}
+        for i, a in enumerate(node.args):
+          if i < len(params):
+            env[params[i]] = interp.value(a, st)
+        for k in node.keywords:
+          if k.arg:
+            env[k.arg] = interp.value(k.value, st)
+        # parameters keep their names for the attr hook (ground.overwrite ...)
+        for p_ in params:
+          env.setdefault(p_, Sym(p_))
+        v = interp.inline(callee.node, {k: v for k, v in env.items()
+                                        if not (isinstance(v, Sym) and v.text == k)}, st)
+        if v is not NotImplemented:
+          return v
+    return NotImplemented
 
   def compare(op, l, r, st):
     if isinstance(op, (ast.In, ast.NotIn)) and isinstance(r, Sym):
       if r.text.endswith('table_to_defined_table_map'):
         return isinstance(op, ast.NotIn)
       if r.text.endswith('defined_predicates'):
-        return isinstance(op, ast.In)
+        return isinstance(op, ast.In) == has_rules
     return NotImplemented
 
   def store(target, val, st, interp):
@@ -75,6 +101,11 @@ def export_scenarios(repo, engine, overwrite, copy_to_file):
       continue
     exp = [e[1] for e in o.state.effects if e[0] == 'export']
     text = None
+    if not has_rules:
+      res.append(([strshape.as_str(e[1]).text(lambda h: '<%s>' % getattr(h, 'text', '?'))
+                   for e in o.state.effects if e[0] == 'emit' and not (
+                       isinstance(e[1], Const) and e[1].v is None)], o.state.effects))
+      continue
     if exp:
       text = strshape.as_str(exp[-1]).text(lambda h: '<%s>' % getattr(h, 'text', '?'))
     res.append((text, o.state.effects))
@@ -174,6 +205,20 @@ def run(chk):
         chk.ob('C17-R2', bal, None, '[%s, overwrite=%s] statement text is well formed' % (engine, overwrite),
                'exported text `%s` has an empty table name or dangling separator' % flat[:120],
                fi=fi, nontrivial=False)
+  # a grounded predicate without rules names an existing table: nothing but
+  # the comment may be emitted for it
+  for engine in ('sqlite', 'duckdb', 'clickhouse'):
+    fi, res = export_scenarios(repo, engine, True, False, has_rules=False)
+    n_paths += len(res)
+    for emitted, eff in res:
+      stmts = [t for t in emitted if not t.lstrip().startswith('--')]
+      drop = any(e[0] == 'drop-action' for e in eff)
+      exported = any(e[0] == 'export' for e in eff)
+      chk.ob('C17-R2', not stmts and not drop and not exported, None,
+             '[%s] a rule-less @Ground emits no statement' % engine,
+             'for a grounded predicate without rules (an existing table) %s is '
+             'emitted: running the program drops / rewrites a table it only reads'
+             % (stmts or 'a drop action'), fi=fi)
   chk.more_evaluations += n_paths
   ca = repo.func('universe.SubqueryTranslator.AddClickhouseDropAction')
   src = norm(ca.node, 10000)
